@@ -277,6 +277,11 @@ fn main() {
                 fault::run_bulky(&srv1, &mut out);
                 runs += 1;
             }
+            // truncated request behind a complete one, then silence, on every slot of a small server
+            let srv2 = tcp::start_server(tcp::free_port(base + 60), "none", 0, 1024, 2, 2, 2);
+            std::thread::sleep(std::time::Duration::from_millis(100));
+            fault::run_silent_hogs(srv2.port, 2, 2, &mut out);
+            runs += 1;
             out.flush().unwrap();
             println!("{{\"streams\": {}, \"runs\": {}}}", count, runs);
         }
@@ -496,14 +501,14 @@ fn main() {
                     let p = tcp::free_port(next_port);
                     next_port = p + 1;
                     // (idle timeout far above any stall of the driver: an idle close would look like a lost answer)
-                    servers.insert(s.limit, tcp::start_server(p, "none", 0, s.limit, 64, 30, 2));
+                    servers.insert(s.limit, tcp::start_server(p, "none", 0, s.limit, 64, if profile == "tslow" { 2 } else { 30 }, 2));
                 }
                 let srv = &servers[&s.limit];
                 let bytes = s.bytes();
                 writeln!(out, "{}", wire::stream_event(i + 1, &s, bytes.len())).unwrap();
                 if profile == "tslow" {
                     // the universes differ in how the client reads, not in how it writes
-                    for (u, mode) in ["attentive", "late", "drip"].iter().enumerate() {
+                    for (u, mode) in ["attentive", "late", "drip", "stalled"].iter().enumerate() {
                         tcp::run_slow_universe(srv, &s.frames, mode, u + 1, &mut out);
                         universes += 1;
                     }
